@@ -484,3 +484,292 @@ func c18AutoGen(r *rand.Rand, thorough bool, emit func(c, cat string)) {
 		emit("k="+c18UpModelKind[k]+" auto=1 up="+k+" ops="+strings.Join(ops, ","), "up-"+k+"/random")
 	}
 }
+
+// ---------------------------------------------------------------- dials that are stuck in the handshake
+//
+// stall=1: the upstream (tls, tls+pipeline, https: a TCP server that accepts and never answers the
+// ClientHello; quic, h3: a UDP socket that never answers) is closed while its dials are inside the TLS /
+// QUIC handshake. Such a dial is a pending, context-honouring dial of the manual model (auto=0): Close
+// must abort it — within a short bound after Close has returned every connection the server accepted is
+// closed and every exchange in flight has failed.
+
+type c18stall struct {
+	once     sync.Once
+	mu       sync.Mutex
+	accepted int
+	open     map[int]bool
+	packets  int
+	tcpAddr  string
+	udpAddr  string
+}
+
+var c18st c18stall
+
+const c18StallBound = 1500 * time.Millisecond
+
+func c18StallSetup() {
+	c18Setup()
+	s := &c18st
+	s.once.Do(func() {
+		s.open = map[int]bool{}
+		l, err := net.Listen("tcp", "127.0.0.1:0")
+		if err != nil {
+			panic(err)
+		}
+		s.tcpAddr = l.Addr().String()
+		go func() {
+			for {
+				c, err := l.Accept()
+				if err != nil {
+					return
+				}
+				s.mu.Lock()
+				s.accepted++
+				id := s.accepted
+				s.open[id] = true
+				s.mu.Unlock()
+				go func() {
+					io.Copy(io.Discard, c) // until the client closes
+					c.Close()
+					s.mu.Lock()
+					delete(s.open, id)
+					s.mu.Unlock()
+				}()
+			}
+		}()
+		uc, err := net.ListenUDP("udp", &net.UDPAddr{IP: net.IPv4(127, 0, 0, 1)})
+		if err != nil {
+			panic(err)
+		}
+		s.udpAddr = uc.LocalAddr().String()
+		go func() {
+			b := make([]byte, 4096)
+			for {
+				if _, _, err := uc.ReadFromUDP(b); err != nil {
+					return
+				}
+				s.mu.Lock()
+				s.packets++
+				s.mu.Unlock()
+			}
+		}()
+	})
+}
+
+func (s *c18stall) progress() int { s.mu.Lock(); defer s.mu.Unlock(); return s.accepted + s.packets }
+func (s *c18stall) openSince(id int) int {
+	s.mu.Lock()
+	defer s.mu.Unlock()
+	n := 0
+	for k := range s.open {
+		if k > id {
+			n++
+		}
+	}
+	return n
+}
+
+func c18RunStall(m map[string]string, ops []string) string {
+	c18StallSetup()
+	s := &c18st
+	var addr string
+	shared := false // one dial for all exchanges
+	switch m["up"] {
+	case "tls":
+		addr = "tls://" + s.tcpAddr
+	case "tls+pipeline":
+		addr, shared = "tls+pipeline://"+s.tcpAddr, true
+	case "https":
+		addr = "https://" + s.tcpAddr + "/dns-query"
+	case "quic":
+		addr, shared = "quic://"+s.udpAddr, true
+	case "h3":
+		addr, shared = "h3://"+s.udpAddr+"/dns-query", true
+	default:
+		return "bad-case"
+	}
+	hasClose := false
+	for _, op := range ops {
+		if op == "C" {
+			hasClose = true
+		}
+	}
+	if !hasClose {
+		return "bad-case"
+	}
+	if c18UpstreamCrashes(m["up"]) {
+		return "panic"
+	}
+	base := c18Baseline()
+	s.mu.Lock()
+	firstConn := s.accepted
+	s.mu.Unlock()
+	u, err := upstream.NewUpstream(addr, upstream.Opt{TLSConfig: &tls.Config{InsecureSkipVerify: true}})
+	if err != nil {
+		return "newupstream-failed ## " + err.Error()
+	}
+	var mu sync.Mutex
+	exs := map[int]*c18aex{}
+	blocked := func() []int {
+		mu.Lock()
+		defer mu.Unlock()
+		var l []int
+		for e, x := range exs {
+			if !x.done {
+				l = append(l, e)
+			}
+		}
+		sort.Ints(l)
+		return l
+	}
+	bound := func(cond func() bool) bool {
+		ok := c18Until(c18StallBound, cond)
+		if !ok {
+			c18Timeouts.Add(1)
+		}
+		return ok
+	}
+	closed := false
+	openAtClose := 0
+	closes, clRes, atc := 0, "", "-"
+	for _, op := range ops {
+		if op == "" {
+			continue
+		}
+		e := 0
+		if len(op) > 1 {
+			e = atoi(op[1:])
+		}
+		switch op[0] {
+		case 's', 'S':
+			mu.Lock()
+			if exs[e] != nil {
+				mu.Unlock()
+				continue
+			}
+			ctx, cancel := context.WithCancel(context.Background())
+			x := &c18aex{cancel: cancel}
+			exs[e] = x
+			mu.Unlock()
+			dialing := shared && len(blocked()) > 1
+			p0 := s.progress()
+			go func() {
+				_, err := u.ExchangeContext(ctx, c18Query(e, uint16(0x4000+e)))
+				res := "err"
+				if err == nil {
+					res = "ok"
+				}
+				mu.Lock()
+				if err != nil && x.cancelled && errors.Is(err, context.Canceled) {
+					res = "ctx"
+				}
+				x.done, x.res = true, res
+				mu.Unlock()
+			}()
+			ev := func() bool { mu.Lock(); d := x.done; mu.Unlock(); return d || s.progress() > p0 }
+			if dialing || closed {
+				c18Until(c18Grace, ev) // joins the dial in progress: nothing to see
+			} else {
+				c18Wait(ev)
+			}
+		case 'c':
+			mu.Lock()
+			x := exs[e]
+			if x == nil || x.done {
+				mu.Unlock()
+				continue
+			}
+			x.cancelled = true
+			mu.Unlock()
+			x.cancel()
+			c18Wait(func() bool { mu.Lock(); defer mu.Unlock(); return x.done })
+		case 'C':
+			r := c18Call(c18CallMax, func() { u.Close() })
+			if r == "ok" {
+				closes++
+			} else if clRes == "" {
+				clRes = r
+			}
+			if !closed {
+				closed = true
+				bound(func() bool { return len(blocked()) == 0 && s.openSince(firstConn) == 0 })
+				atc = c18Ids(blocked())
+				openAtClose = s.openSince(firstConn)
+			}
+		}
+	}
+	bound(func() bool { return s.openSince(firstConn) == 0 })
+	open := s.openSince(firstConn)
+	if openAtClose > open {
+		open = openAtClose // still open when the bound after Close had passed
+	}
+	c18Wait(func() bool { return len(blocked()) == 0 })
+	if l := c18Leak(base); l > open {
+		open = l
+	}
+	mu.Lock()
+	var ids []int
+	for e := range exs {
+		ids = append(ids, e)
+	}
+	sort.Ints(ids)
+	var parts []string
+	for _, e := range ids {
+		r := "pend"
+		if exs[e].done {
+			r = exs[e].res
+		}
+		parts = append(parts, fmt.Sprintf("%d:%s", e, r))
+	}
+	for _, x := range exs {
+		x.cancel()
+	}
+	mu.Unlock()
+	res := "-"
+	if len(parts) > 0 {
+		res = strings.Join(parts, ",")
+	}
+	cl := strconv.Itoa(closes)
+	if clRes != "" {
+		cl = clRes
+	}
+	return fmt.Sprintf("res=%s cl=%s open=%d atc=%s dials=-", res, cl, open, atc)
+}
+
+func c18StallGen(r *rand.Rand, thorough bool, emit func(c, cat string)) {
+	kinds := []string{"tls", "tls+pipeline", "https", "quic", "h3"}
+	fixed := []string{"s1,C", "s1,s2,C,s3", "s1,c1,C", "s1,s2,c1,C,C", "s1,C,s2,C"}
+	for ki, k := range kinds {
+		for i, ops := range fixed {
+			if !thorough && i != ki%2 && i != 3 {
+				continue
+			}
+			emit("k="+c18UpModelKind[k]+" auto=0 stall=1 up="+k+" ops="+ops, "stall-"+k)
+		}
+	}
+	n := 0
+	if thorough {
+		n = 40
+	}
+	for i := 0; i < n; i++ {
+		k := kinds[i%len(kinds)]
+		var ops []string
+		started := map[int]bool{}
+		nops := 2 + r.Intn(5)
+		closedAt := 1 + r.Intn(nops)
+		for j := 0; j <= nops; j++ {
+			if j == closedAt {
+				ops = append(ops, "C")
+				continue
+			}
+			e := 1 + r.Intn(3)
+			if !started[e] || r.Intn(3) > 0 {
+				ops = append(ops, "s"+strconv.Itoa(e))
+				started[e] = true
+			} else {
+				ops = append(ops, "c"+strconv.Itoa(e))
+			}
+		}
+		emit("k="+c18UpModelKind[k]+" auto=0 stall=1 up="+k+" ops="+strings.Join(ops, ","), "stall-"+k)
+	}
+}
